@@ -213,7 +213,7 @@ Fail(s) == Res(FALSE, s, 0, "none", NoRecs)
 Ctl(s, x, typ, req) ==
   LET w == s.wr[x]
       rec == [typ |-> typ, ep |-> w.ep, seq |-> w.seq, lo |-> CtlLen(typ), hi |-> CtlLen(typ),
-              wbeg |-> w.sent, wend |-> w.sent, idx |-> 1, cnt |-> 1, pre |-> 0, req |-> req, mut |-> FALSE] IN
+              wbeg |-> w.sent, wend |-> w.sent, idx |-> 1, cnt |-> 1, pre |-> 0, req |-> req, mut |-> FALSE, pad |-> 0] IN
   [rec |-> rec,
    s |-> [s EXCEPT !.wr[x].seq = @ + 1, !.wr[x].junk = @ \/ w.dead,
                    !.ramp[x].bs = @ + RecHdr + CtLen(s.q, CtlLen(typ)),     \* not application data: packetsSent stays
@@ -258,7 +258,7 @@ DoWrite1(s, x, n, c) ==
   ELSE LET recs == [i \in 1..Len(c) |->
                       [typ |-> "app", ep |-> w.ep, seq |-> w.seq + i - 1, lo |-> c[i].lo, hi |-> c[i].hi,
                        wbeg |-> w.sent, wend |-> w.sent + n, idx |-> i, cnt |-> Len(c), pre |-> SumLo(SubSeq(c, 1, i - 1)),
-                       req |-> FALSE, mut |-> FALSE]] IN
+                       req |-> FALSE, mut |-> FALSE, pad |-> 0]] IN
        Res(TRUE, [s EXCEPT !.wr[x].seq = @ + Len(c), !.wr[x].sent = @ + n,
                            !.ramp[x] = RampWrite(s.q, s.ramp[x], n).r,
                            !.net[x] = IF s.cut[x] THEN @ ELSE @ \o recs],
@@ -270,6 +270,28 @@ DoWrite(s, x, n, ivs) ==
   ELSE IF s.wr[x].exp /\ n > 0                                 \* the first record of the call cannot be written
   THEN IF ivs = <<>> THEN Res(TRUE, Burn(s, x), 0, "error", NoRecs) ELSE Fail(s)
   ELSE DoWrite1(s, x, n, Shape(s.q, n, ivs))
+
+(***************************************************************************)
+(* A padding peer (RFC 8446 5.4, TLS 1.3 only): n bytes of application     *)
+(* data go out as ONE record whose inner plaintext is followed by pad zero *)
+(* bytes (n + pad <= 2^14).  The in-tree writer never pads; a compliant    *)
+(* peer may pad every record, by any amount.  For the reader the record    *)
+(* is an application record of n bytes like any other: it delivers exactly *)
+(* the unpadded bytes (an all-padding record of no data is skipped).       *)
+(* Padding does not go through dynamic record sizing (bytesSent moves,     *)
+(* packetsSent does not).                                                  *)
+(***************************************************************************)
+DoWritePadded(s, x, n, pad) ==
+  LET w == s.wr[x]
+      rec == [typ |-> "app", ep |-> w.ep, seq |-> w.seq, lo |-> n, hi |-> n, wbeg |-> w.sent, wend |-> w.sent + n,
+              idx |-> 1, cnt |-> 1, pre |-> 0, req |-> FALSE, mut |-> FALSE, pad |-> pad] IN
+  IF ~s.live \/ s.q.vers # VTLS13 \/ n < 0 \/ pad < 0 \/ n + pad > MaxPlain THEN Fail(s)
+  ELSE IF w.dead \/ w.closed \/ w.shut THEN Res(TRUE, s, 0, "error", NoRecs)
+  ELSE IF w.exp THEN Res(TRUE, Burn(s, x), 0, "error", NoRecs)
+  ELSE Res(TRUE, [s EXCEPT !.wr[x].seq = @ + 1, !.wr[x].sent = @ + n,
+                           !.ramp[x].bs = @ + RecHdr + CtLen(s.q, n + pad),
+                           !.net[x] = IF s.cut[x] THEN @ ELSE Append(@, rec)],
+           n, "none", [NoRecs EXCEPT ![x] = <<rec>>])
 
 (***************************************************************************)
 (* Read(k).  ch = [L, alert, peek] are the choices the specification       *)
